@@ -91,7 +91,7 @@ type built struct {
 	// faulty: calls that FAIL or are REFUSED half-way (a destination writer failing after k bytes, a
 	// value refused after part of it was serialised). They are "unrelated calls" of the property's
 	// histories: whatever they leave behind must not show in any later output.
-	faulty map[string]func(k int)
+	faulty map[string]func(k int) error
 }
 
 // failAfter accepts k bytes, then fails (every second one with a short write).
@@ -114,7 +114,7 @@ func (w *failAfter) Write(p []byte) (int, error) {
 }
 
 func build(in *Input, perm uint64) *built {
-	b := &built{serializers: map[string]func() ([]byte, error){}, faulty: map[string]func(int){}}
+	b := &built{serializers: map[string]func() ([]byte, error){}, faulty: map[string]func(int) error{}}
 	switch in.Kind {
 	case "bundle":
 		s := *in.Bundle
@@ -128,7 +128,7 @@ func build(in *Input, perm uint64) *built {
 			_, err := bb.WriteTo(&buf)
 			return buf.Bytes(), err
 		}
-		b.faulty["bundle.WriteTo -> failing writer"] = func(k int) { bb.WriteTo(&failAfter{k: k, short: k%2 == 1}) }
+		b.faulty["bundle.WriteTo -> failing writer"] = func(k int) error { _, err := bb.WriteTo(&failAfter{k: k, short: k%2 == 1}); return err }
 		if len(bb.Exchanges) > 0 {
 			b.serializers["Response.EncodeHeader"] = func() ([]byte, error) { return bb.Exchanges[0].Response.EncodeHeader() }
 		}
@@ -155,9 +155,9 @@ func build(in *Input, perm uint64) *built {
 			err := e.Write(&buf)
 			return buf.Bytes(), err
 		}
-		b.faulty["Exchange.Write -> failing writer"] = func(k int) { e.Write(&failAfter{k: k, short: k%2 == 1}) }
-		b.faulty["Exchange.DumpExchangeHeaders -> failing writer"] = func(k int) { e.DumpExchangeHeaders(&failAfter{k: k, short: k%2 == 1}) }
-		b.faulty["AddSignatureHeader refused (URL not expressible as a structured-header string)"] = func(k int) {
+		b.faulty["Exchange.Write -> failing writer"] = func(k int) error { return e.Write(&failAfter{k: k, short: k%2 == 1}) }
+		b.faulty["Exchange.DumpExchangeHeaders -> failing writer"] = func(k int) error { return e.DumpExchangeHeaders(&failAfter{k: k, short: k%2 == 1}) }
+		b.faulty["AddSignatureHeader refused (URL not expressible as a structured-header string)"] = func(k int) error {
 			e2 := *e
 			sg2 := *sg
 			if k%2 == 0 {
@@ -165,7 +165,7 @@ func build(in *Input, perm uint64) *built {
 			} else {
 				sg2.CertUrl = mustURL("https://a.example/cert?c=\u00e9")
 			}
-			e2.AddSignatureHeader(&sg2)
+			return e2.AddSignatureHeader(&sg2)
 		}
 		b.serializers["Exchange.DumpExchangeHeaders"] = func() ([]byte, error) {
 			var buf bytes.Buffer
@@ -206,7 +206,7 @@ func build(in *Input, perm uint64) *built {
 		if err != nil {
 			panic(err)
 		}
-		b.faulty["CertChain.Write -> failing writer"] = func(k int) { cc.Write(&failAfter{k: k, short: k%2 == 1}) }
+		b.faulty["CertChain.Write -> failing writer"] = func(k int) error { return cc.Write(&failAfter{k: k, short: k%2 == 1}) }
 		b.serializers["CertChain.Write"] = func() ([]byte, error) {
 			var buf bytes.Buffer
 			err := cc.Write(&buf)
@@ -255,13 +255,21 @@ func build(in *Input, perm uint64) *built {
 			}
 			pl = append(pl, structuredheader.ParameterisedIdentifier{Label: structuredheader.Token(fmt.Sprintf("label%d", m)), Params: params})
 		}
-		b.faulty["ParameterisedList.String refused"] = func(k int) {
+		b.faulty["ParameterisedList.String refused"] = func(k int) error {
 			bad := append(structuredheader.ParameterisedList{}, pl...)
 			bad = append(bad, structuredheader.ParameterisedIdentifier{Label: "last", Params: structuredheader.Parameters{"a": int64(k), "zz": []string{"unsupported type"}}})
-			bad.String()
-			if len(bad) > 0 {
-				bad[len(bad)-1].String()
+			_, err := bad.String()
+			if _, err2 := bad[len(bad)-1].String(); (err2 == nil) != (err == nil) {
+				return fmt.Errorf("list refused: %v, member alone refused: %v", err, err2)
 			}
+			return err
+		}
+		// the spelling of a valid TOKEN used in this list ("tok/<key>", "label0") as a parameter KEY,
+		// where '/' and digits-after-nothing are not allowed: the two grammars must not be confused
+		b.faulty["ParameterisedList.String refused (a valid token's spelling used as a key)"] = func(k int) error {
+			bad := structuredheader.ParameterisedList{{Label: "x", Params: structuredheader.Parameters{structuredheader.Key("tok/" + []string{"cert-sha256", "a", "z_z", "cert-sha256"}[k%4]): int64(1)}}}
+			_, err := bad.String()
+			return err
 		}
 		b.serializers["ParameterisedList.String"] = func() ([]byte, error) {
 			s, err := pl.String()
@@ -272,10 +280,11 @@ func build(in *Input, perm uint64) *built {
 		for i := 0; i < 1+in.N%4; i++ {
 			ll = append(ll, []structuredheader.Item{structuredheader.Token("accept-language"), "en", int64(i), gen.Filler(i, in.Tag)})
 		}
-		b.faulty["ListOfLists.String refused"] = func(k int) {
+		b.faulty["ListOfLists.String refused"] = func(k int) error {
 			bad := append(structuredheader.ListOfLists{}, ll...)
 			bad = append(bad, []structuredheader.Item{structuredheader.Token("ok"), "not printable \x01"})
-			bad.String()
+			_, err := bad.String()
+			return err
 		}
 		b.serializers["ListOfLists.String"] = func() ([]byte, error) {
 			s, err := ll.String()
@@ -285,7 +294,7 @@ func build(in *Input, perm uint64) *built {
 		payload := gen.Filler(in.N*37, in.Tag)
 		for _, enc := range []mice.Encoding{mice.Draft02Encoding, mice.Draft03Encoding} {
 			enc := enc
-			b.faulty["mice.Encode/"+string(enc)+" -> failing writer"] = func(k int) { enc.Encode(&failAfter{k: k, short: k%2 == 1}, payload, 16) }
+			b.faulty["mice.Encode/"+string(enc)+" -> failing writer"] = func(k int) error { _, err := enc.Encode(&failAfter{k: k, short: k%2 == 1}, payload, 16); return err }
 			b.serializers["mice.Encode/"+string(enc)] = func() ([]byte, error) {
 				var buf bytes.Buffer
 				dg, err := enc.Encode(&buf, payload, 16)
@@ -452,8 +461,38 @@ var histProp = vh.Define("C18", "history", func(c HistCase, r *vh.R) {
 	}
 	first := map[string][]byte{}
 	faults := 0
+	refused := map[string]bool{} // outcome (refused or not) of each failing call, which must be stable too
+	runFaulty := func(oi int, name string, k int, step int) bool {
+		err := objs[oi].faulty[name](k)
+		key := fmt.Sprintf("%d/%s/%d", oi, name, k)
+		if was, ok := refused[key]; ok && was != (err != nil) {
+			r.Failf("outcome-not-stable", "step %d: %q (k=%d) on object %d (%s) was %s before and is %s now (err: %v)", step, name, k, oi, c.Pool[oi].Kind, map[bool]string{true: "refused", false: "accepted"}[was], map[bool]string{true: "refused", false: "accepted"}[err != nil], err)
+			return false
+		}
+		refused[key] = err != nil
+		return true
+	}
 	for _, call := range c.Calls {
 		if call >= 64 { // histories with failing calls: reference outputs are taken before the first of them
+			if c.Calls[0]%2 == 1 {
+				// ... and in every second such history each kind of failing call has ALREADY happened
+				// once before anything was serialised successfully
+				for oi := range objs {
+					fs := make([]string, 0, len(objs[oi].faulty))
+					for n := range objs[oi].faulty {
+						fs = append(fs, n)
+					}
+					sort.Strings(fs)
+					for _, n := range fs {
+						for k := 0; k < 4; k++ {
+							if !runFaulty(oi, n, k*k*7, -1) {
+								return
+							}
+						}
+					}
+				}
+				r.Class("failed-calls-before-first-success")
+			}
 			for oi := range objs {
 				for _, name := range names(objs[oi].serializers) {
 					out, err := objs[oi].serializers[name]()
@@ -482,7 +521,9 @@ var histProp = vh.Define("C18", "history", func(c HistCase, r *vh.R) {
 			}
 			sort.Strings(fs)
 			k := call % 16
-			objs[oi].faulty[fs[k%len(fs)]](k * k * 7)
+			if !runFaulty(oi, fs[k%len(fs)], (k%4)*(k%4)*7, step) {
+				return
+			}
 			faults++
 			continue
 		}
